@@ -177,11 +177,10 @@ def impl(t, case):
             lines.append(f"    {fname}: {src} = {default}")
         base = (classes[i - 1][0] + mod.sfx) if i else "ASTNode"
         chunks.append(("from __future__ import annotations\n" if future else "")
-                      + f"@dataclass(frozen=True)\nclass {cn}{mod.sfx}({base}):\n" + "\n".join(lines) + "\n")
+                      + f"@dataclass(frozen=True)\nclass {cn}{mod.sfx}({base}):\n" + "\n".join(lines or ["    pass"]) + "\n")
     pre = P.PREAMBLE
-    for c in P.EARLY:
-        b = P.SUPERS[c][0] + mod.sfx if P.SUPERS[c] else "ASTNode"
-        pre += P.node_cls_src(c + mod.sfx, b, False)
+    for c in t.args[0]:
+        pre += P.node_cls_src(P.s_(c) + mod.sfx, "ASTNode", False)
     log = logging.getLogger("pyoak.node")
     cap = _Capture()
     old = (config.TRACE_LOGGING, log.level, log.propagate)
@@ -208,8 +207,8 @@ def impl(t, case):
             out.append(["Def", Con("Skipped") if skipped else Con("Ok")])
             defined.append(cn)
         config.TRACE_LOGGING = old[0]
-        for c in P.LATE:
-            mod.run(P.node_cls_src(c + mod.sfx, "ASTNode", False))
+        for c in t.args[1]:
+            mod.run(P.node_cls_src(P.s_(c) + mod.sfx, "ASTNode", False))
         res = []
         for k, cn in enumerate(defined):
             K = getattr(mod.m, cn + mod.sfx)
